@@ -10,7 +10,7 @@ import propcheck
 P = [101, 105, 110, 120, 150, 180, 190, 200, 204, 210, 250, 300, 310, 350, 400, 470, 480, 500, 600]
 
 
-def gen_case(rng):
+def gen_case(rng, force_removed=False):
     runners = [201, 202, 203]
     book1, book2, orders = {}, {}, []
     for k, sel in enumerate(runners):
@@ -23,6 +23,8 @@ def gen_case(rng):
         price = (P[i] if rng.random() < 0.6 else P[i - 1]) if side == "BACK" else (P[i + 1] if rng.random() < 0.6 else P[i + 2])
         orders.append({"name": "o%d" % k, "sel": sel, "side": side, "price": price / 100, "size": float(rng.choice([5, 20, 40, 60]))})
         move = rng.choice(["same", "away", "thin", "towards", "removed" if k == 2 else "away"])
+        if force_removed and k == 2:
+            move = "removed"
         if move == "removed":
             book2[str(sel)] = {"removed": rng.choice([12.5, 20.0, 2.0])}
         elif move == "same":
@@ -76,7 +78,7 @@ def check_case(case, out):
 
 
 def run_family(ck, rng, n, fname, keys):
-    cases = [gen_case(rng) for _ in range(n)]
+    cases = [gen_case(rng, force_removed=("C09" in keys)) for _ in range(n)]
     outs = run_impl_parallel("paperlib", [{"job": "arrival", "cases": ch} for ch in chunked(cases, 4)], timeout=1800)
     res = [r for o in outs for r in o["out"]]
     bad = []
